@@ -66,6 +66,10 @@ def oracle(op, obs):
                 return ("reqdec/unsupported", "media type %r is not answered with 415/unsupported_media_type" % ct, "unsupported 415")
         elif f.get("dec") != want:
             return ("reqdec/table", "request media type %r decoded as %s" % (ct, f.get("dec")), want)
+    elif toks[0] == "keep":
+        if obs != "keep=ok":
+            return ("decode/value-changed-by-later-decode", "a value decoded from a %s body (%s side) %s after another body was decoded" %
+                    (dec(toks[2]), toks[1], obs.replace("keep=", "")), "keep=ok")
     elif toks[0] == "reqenc":
         h = dec(toks[1])
         want = "enc=json hdr=" + (toks[1] if h else "application/json".encode().hex())
